@@ -213,3 +213,12 @@ pub const fn f64_epsilon() -> (r: f64)
 {
     f64::EPSILON
 }
+
+/// R8: number of workers; only `>= 1` is assumed of num_cpus::get()
+#[verifier::external_body]
+pub fn num_cpus_get() -> (r: usize)
+    ensures r >= 1,
+{
+    // the generated file is verified, never run; the real call is num_cpus::get()
+    std::thread::available_parallelism().map(|n| n.get()).unwrap_or(1)
+}
